@@ -60,14 +60,22 @@ func vecDiff(a, b []string) string {
 }
 
 type c14Load struct {
-	Kind    string
-	Text    string
-	Expect  string // "ok" | "fail" | "either"
-	Reader  int    // fault offset (-1: none)
-	RKind   int
-	Add     func() []ggql.Type // when set the load is Root.AddTypes(Add()...) (fresh type objects for every root)
-	Files   map[string]string  // when set the load is Root.ParseFS over these files ("*.graphql")
-	FSFault string             // "", "open", "read", "close": the fault injected into the file system of the history root
+	Kind     string
+	Text     string
+	Expect   string // "ok" | "fail" | "either"
+	Reader   int    // fault offset (-1: none)
+	RKind    int
+	Add      func() []ggql.Type // when set the load is Root.AddTypes(Add()...) (fresh type objects for every root)
+	Files    map[string]string  // when set the load is Root.ParseFS over these files ("*.graphql")
+	FSFault  string             // "", "open", "read", "close": the fault injected into the file system of the history root
+	Patterns []string           // ParseFS patterns (default: one pattern matching every schema file)
+}
+
+func (l c14Load) patterns() []string {
+	if len(l.Patterns) > 0 {
+		return l.Patterns
+	}
+	return []string{"*.graphql"}
 }
 
 // apply performs the load on a root (without reader faults).
@@ -76,7 +84,7 @@ func (l c14Load) apply(root *ggql.Root) (err error) {
 		return root.AddTypes(l.Add()...)
 	}
 	if l.Files != nil {
-		return root.ParseFS(&faultyFS{files: l.Files, failOpen: -1, failRead: -1, failClose: -1}, "*.graphql")
+		return root.ParseFS(&faultyFS{files: l.Files, failOpen: -1, failRead: -1, failClose: -1}, l.patterns()...)
 	}
 	return root.ParseString(l.Text)
 }
@@ -96,7 +104,7 @@ func (l c14Load) applyFaulty(root *ggql.Root, r *rand.Rand) error {
 	default:
 		f.failClose = k
 	}
-	return root.ParseFS(f, "*.graphql")
+	return root.ParseFS(f, l.patterns()...)
 }
 
 // c14AddTypes: loads through the Go API. Types are built fresh on every call; references are *ggql.Ref like the parser makes them.
@@ -426,6 +434,15 @@ func runC14(c *run.Ctx) {
 					f := c14Failures[r.Intn(len(c14Failures))]
 					files["zbad.graphql"] = f.text
 					load.Kind, load.Expect = "parsefs-bad-file-"+f.kind, "fail"
+					if r.Intn(2) == 0 {
+						// several patterns, the bad file matched by a later one only
+						load.Patterns = []string{"part*.graphql", "z*.graphql"}
+						load.Kind += "-later-pattern"
+					}
+				case 2:
+					// several patterns, the last one malformed: whatever the call answers, if it is an error nothing stays
+					load.Patterns = []string{"part0*.graphql", "part*.graphql", "ext/[.graphql"}
+					load.Kind = "parsefs-malformed-later-pattern"
 				case 1:
 					load.FSFault = []string{"open", "read", "close"}[r.Intn(3)]
 					load.Kind, load.Expect = "parsefs-fault-"+load.FSFault, "fail"
@@ -437,6 +454,9 @@ func runC14(c *run.Ctx) {
 				sort.Strings(names)
 				for _, fn := range names {
 					load.Text += "--- " + fn + "\n" + files[fn] + "\n"
+				}
+				if len(load.Patterns) > 0 {
+					load.Text = fmt.Sprintf("patterns %q\n", load.Patterns) + load.Text
 				}
 				nontriv = nontriv || load.Expect == "fail"
 			case k < 5: // failing document after some valid content
